@@ -15,6 +15,10 @@ use serde_derive::{Deserialize, Serialize};
 #[derive(Clone, Debug, Serialize, Deserialize)]
 pub struct Scn {
 	pub spec: FileSpec,
+	/// `Some(j)`: a second run in which the sink refuses (cleanly, nothing accepted) the first write of the j-th explicit
+	/// `finish_block` that has something to write, and is healthy again afterwards
+	#[serde(default)]
+	pub failed_finish: Option<u32>,
 }
 
 pub struct C15;
@@ -41,7 +45,7 @@ impl Prop for C15 {
 	}
 	fn assumptions(&self) -> Vec<String> {
 		vec![
-			"the sink accepts everything (C15 quantifies over histories and crash points; sink faults are C16's)".into(),
+			"the sink accepts everything (C15 quantifies over histories and crash points; sink faults are C16's), except for one case inside the statement's 'whenever a call has returned without error': an explicit finish_block whose write the sink refuses cleanly (nothing accepted), after which the sink is healthy and every later successful call is judged like any other".into(),
 			"a crash is modelled as 'nothing after the last accepted byte exists'; the crate never calls flush/sync, so there is no further durability layer to model".into(),
 		]
 	}
@@ -68,10 +72,11 @@ impl Prop for C15 {
 		if rng.chance(1, 250) {
 			// blocks whose (compressed) size crosses the encoders' starting buffers, the 8 KiB and the 64 KiB marks
 			let codec = container::gen_codec_ext(rng, true, false);
-			return Scn { spec: container::gen_blob_spec(rng, codec) };
+			return Scn { spec: container::gen_blob_spec(rng, codec), failed_finish: None };
 		}
 		Scn {
 			spec: container::gen_filespec(rng, &profile),
+			failed_finish: if rng.chance(1, 4) { Some(rng.below(3) as u32) } else { None },
 		}
 	}
 
@@ -237,6 +242,71 @@ impl Prop for C15 {
 			prev = Some(snap);
 			prev_decoded = decoded.len();
 		}
+		// ---- second run: an explicit finish_block meets a sink that refuses the write (nothing accepted) and recovers.
+		// "Whenever a call has returned without error, the bytes delivered so far form a complete, valid file holding a
+		// prefix of the successfully serialized values": that includes every call after the failed one.
+		if let (false, Some(j)) = (out.failed(), scn.failed_finish) {
+			let writing_finishes: Vec<u64> = snaps
+				.windows(2)
+				.filter(|w| w[1].step.op < spec.ops.len() && matches!(spec.ops.get(w[1].step.op), Some(Op::FinishBlock)) && w[1].step.sink_calls > w[0].step.sink_calls)
+				.map(|w| w[0].step.sink_calls)
+				.collect();
+			if let Some(&at_call) = writing_finishes.get(j as usize % writing_finishes.len().max(1)) {
+				out.count("explicit_finish_block_meets_failing_sink", 1);
+				let sink = SimSink::all().with_faults(vec![crate::simio::SinkFault { at_call, kind: crate::simio::SinkFaultKind::Hard(crate::simio::IoErrKind::Other) }]);
+				let sink2 = sink.clone();
+				let mut snaps2: Vec<Snap> = vec![];
+				let run2 = container::run_writer(spec, &sink, |st, model| {
+					snaps2.push(Snap { step: st.clone(), bytes: sink2.accepted(), model_len: model.len() });
+					true
+				});
+				let model2: &[Val] = &run2.model;
+				let mut seen_failure = false;
+				for (si, snap) in snaps2.iter().enumerate() {
+					out.evals += 1;
+					let st = &snap.step;
+					let op = if st.op == usize::MAX { None } else { spec.ops.get(st.op) };
+					let label = if st.op == spec.ops.len() { "end" } else { op_label(op) };
+					if let Some(p) = &st.panicked {
+						out.fail(format!("C15:panic:after-failed-finish_block:{label}:{}", panic_site(p)), format!("step {si}: {p}"));
+						break;
+					}
+					let poisoned = matches!(op, Some(Op::Serialize { poison: Some(_), .. })) || matches!(op, Some(Op::SerializeAll { items }) if items.iter().any(|i| i.2.is_some()));
+					if st.res.is_err() {
+						if !seen_failure && !poisoned {
+							// the refused write surfaces here (that it does is C16's business)
+							seen_failure = true;
+						} else if !poisoned {
+							out.fail(format!("C15:clean-op-failed:after-failed-finish_block:{label}:{codec}"), format!("step {si}: {:?}", st.res));
+							break;
+						}
+						continue;
+					}
+					// the call returned without error: the sink holds a complete valid file with a prefix of the values
+					let verdict = ref_container::parse(&snap.bytes).and_then(|p| p.decode_values(&env, &spec.schema).map(|v| (p.total_count(), v)));
+					match verdict {
+						Err(e) => {
+							out.fail(format!("C15:snapshot-not-a-valid-file:after-failed-finish_block:{label}:{codec}"), format!("step {si} ({label} returned Ok after the sink had refused a finish_block and recovered): {e}"));
+							break;
+						}
+						Ok((count, decoded)) => {
+							if decoded.len() > snap.model_len || decoded[..] != model2[..decoded.len()] || count as usize != decoded.len() {
+								out.fail(format!("C15:snapshot-not-a-prefix:after-failed-finish_block:{label}:{codec}"), format!("step {si}: file holds {} values (counts say {count}), {} accepted", decoded.len(), snap.model_len));
+								break;
+							}
+							let flushing = matches!(op, Some(Op::FinishBlock)) || st.op == spec.ops.len();
+							if flushing && decoded.len() != snap.model_len {
+								out.fail(format!("C15:not-all-values-after-{label}:after-failed-finish_block:{codec}"), format!("step {si}: {} values accepted, file holds {}", snap.model_len, decoded.len()));
+								break;
+							}
+						}
+					}
+				}
+				if !seen_failure && !out.failed() {
+					out.count("refused_write_did_not_surface_as_an_error", 1);
+				}
+			}
+		}
 		if !out.failed() && run.poison_fired > 0 {
 			out.count("poison_fired", run.poison_fired);
 			for d in &run.poison_depths {
@@ -250,7 +320,7 @@ impl Prop for C15 {
 	}
 
 	fn shrink(&self, scn: &Scn) -> Vec<Scn> {
-		let mut c: Vec<Scn> = shrink_spec(&scn.spec).into_iter().map(|spec| Scn { spec }).collect();
+		let mut c: Vec<Scn> = shrink_spec(&scn.spec).into_iter().map(|spec| Scn { spec, failed_finish: scn.failed_finish }).collect();
 		// turn poisoned values into clean ones
 		for (i, op) in scn.spec.ops.iter().enumerate() {
 			if let Op::Serialize { val, pres, poison: Some(_) } = op {
